@@ -1,4 +1,5 @@
 import CmProofs.WcagReal
+import CmProps.C05cert
 /-!
 # C05 — WCAG relative luminance, contrast ratio and levels (model at ℝ)
 
